@@ -39,6 +39,8 @@ structure Facts where
   decoderSkeleton : String
   encoderSkeleton : String
   resolverSkeleton : String
+  -- fingerprint of the full text of the descriptor declarations and of the functions that fill them in
+  descTableSkeleton : String
   -- C08 / C07
   createLocksRechecksBuildsPublishes : Bool
   getIsReadOnly : Bool
